@@ -142,6 +142,8 @@ var guardTable = []guardSpec{
 	{Root + "/socket", "socket", "swap", "swapMutex", nil},
 	{Root + "/socket", "socket", "Conn", "mu", []string{"newSocket", "RawLocked", "initOptimize"}},
 	{Root + "/socket", "socket", "protocol", "mu", []string{"newSocket"}},
+	{Root, "callCmd", "stat", "mu", []string{"Status", "StatusOK", "Reply", "handleReply", "handleReply$1"}},
+	{Root, "callCmd", "inputMeta", "mu", []string{"InputMeta", "RealIP"}},
 	{Root + "/plugin/overloader", "Overloader", "connLimiter", "connLimiterLock", nil},
 	{Root + "/plugin/overloader", "Overloader", "totalQPSLimiter", "totalQPSLimiterLock", nil},
 	{Root + "/plugin/overloader", "Overloader", "handlerQPSLimiter", "handlerQPSLimiterLock", []string{"New"}},
@@ -166,10 +168,15 @@ func runC14_2(c *Ctx) {
 				}
 			}
 			if exempt {
-				c.HoldTrivial(key, p.InstrPos(a.Instr), "exempt: constructor / documented caller-locked accessor")
+				c.HoldTrivial(key, p.InstrPos(a.Instr), "exempt: constructor / documented caller-locked accessor / accessor used after completion (synchronised by the done channel) / cross-stage lock (C02.5)")
 				continue
 			}
-			held := heldAt(p, a.Fn, n, mIdx, a.Instr)
+			// a write needs the exclusive lock: RLock admits concurrent writers
+			held := heldAtMode(p, a.Fn, n, mIdx, a.Instr, a.Kind == AccWrite)
+			if !held && a.Kind == AccWrite && heldAt(p, a.Fn, n, mIdx, a.Instr) {
+				c.Viol(key, p.InstrPos(a.Instr), fmt.Sprintf("%s.%s is written while only the READ lock of %s is held: concurrent readers-turned-writers race (e.g. lazy initialisation under RLock hands different objects to different goroutines)", g.typ, g.field, g.mutex))
+				continue
+			}
 			if !held {
 				// callee invoked only with the lock held (one level): e.g. initOptimize from Reset
 				allHeld, nCallers := true, 0
